@@ -123,7 +123,15 @@ pub(super) const fn needs_macro_sep(
         None | Some(
             TokenType::SEMI | TokenType::MacroLabel | TokenType::KwmThen | TokenType::KwmElse
         )
-    ) && matches!(
+    ) && may_need_macro_sep(tok_type)
+}
+
+/// The cheap half of `needs_macro_sep`: is this a token type that a macro separator
+/// may precede at all. Allows callers to skip looking up the previous token.
+#[inline]
+#[cfg(feature = "macro_sep")]
+pub(super) const fn may_need_macro_sep(tok_type: TokenType) -> bool {
+    matches!(
         tok_type,
         TokenType::MacroLabel
             | TokenType::KwmAbort
